@@ -227,14 +227,17 @@ Definition default_descr (c : config) (descr_type : str) : str :=
 (* ------------------------------------------------------------------ *)
 (* pick_binding                                                        *)
 (* ------------------------------------------------------------------ *)
-(* the `_url` / `_index` reads.  [both = false] is the code as it stands:
+(* the `_url` / `_index` reads.  [both = true] is the code as it stands (after
+   the repair, fix: 05de9b7d in /repo): the two attributes are read
+   independently,
+       _url = getattr(request, "%s_url", None); _index = getattr(request, "%s_index", None)
+   [both = false] is the code BEFORE that repair:
        try: _url = getattr(request, "%s_url")
        except AttributeError:
            _url = None
            try: _index = getattr(request, "%s_index")
            except AttributeError: pass
-   [both = true] reads the two attributes independently (what upstream
-   pysaml2 does); it is used only to state what a repair would achieve. *)
+   kept so that the refutation of the index clause stays visible. *)
 Definition read_url_index (both : bool) (r : request) : option str * option str :=
   match rq_url r with
   | Has u =>
@@ -359,7 +362,8 @@ Definition pick_binding_with (both : bool) (c : config) (md : mdstore) (s : svc)
   let ui := match req with Some r => read_url_index both r | None => (None, None) end in
   pb_loop md s eid descr (fst ui) (snd ui) bl.
 
-Definition pick_binding := pick_binding_with false.
+Definition pick_binding := pick_binding_with true.
+Definition pick_binding_before_fix := pick_binding_with false.
 
 (* ------------------------------------------------------------------ *)
 (* response_args                                                       *)
@@ -400,7 +404,8 @@ Definition response_args_with (both : bool) (c : config) (md : mdstore) (r : req
            end
        end.
 
-Definition response_args := response_args_with false.
+Definition response_args := response_args_with true.
+Definition response_args_before_fix := response_args_with false.
 
 (* ------------------------------------------------------------------ *)
 (* what the property talks about                                       *)
